@@ -647,3 +647,92 @@ func visitNoClosures(f *ssa.Function, fn func(ssa.Instruction)) {
 		}
 	}
 }
+
+// rulesC08ver: a handler loop that was replaced after a deadline must not
+// deliver its stale result.
+func (c *Ctx) rulesC08ver() {
+	c.rule("C08.ver", "in the handler loop the result is sent on handlerEnd only after re-checking, AFTER the handler returned, that this loop is still the current one (handlerLoopVer unchanged); the mismatch branch returns without sending")
+	hl := c.fn(pm + ":Machine.handlerLoop")
+	fHE := c.field(pm, "Machine", "handlerEnd")
+	fVer := c.field(pm, "Machine", "handlerLoopVer")
+	if hl == nil || fHE == nil || fVer == nil {
+		return
+	}
+	n := 0
+	var visit func(f *ssa.Function)
+	visit = func(f *ssa.Function) {
+		for _, a := range f.AnonFuncs {
+			visit(a)
+		}
+		// sends on handlerEnd (plain or in a select)
+		var sends []ssa.Instruction
+		for _, b := range f.Blocks {
+			for _, ins := range b.Instrs {
+				switch x := ins.(type) {
+				case *ssa.Send:
+					if loadOfField(x.Chan) == fHE {
+						sends = append(sends, ins)
+					}
+				case *ssa.Select:
+					for _, st := range x.States {
+						if st.Dir == types.SendOnly && loadOfField(st.Chan) == fHE {
+							sends = append(sends, ins)
+						}
+					}
+				}
+			}
+		}
+		if len(sends) == 0 {
+			return
+		}
+		var execs []ssa.Instruction
+		for _, b := range f.Blocks {
+			for _, ins := range b.Instrs {
+				if call, ok := ins.(*ssa.Call); ok && calleeName(&call.Call) == "Exec" {
+					execs = append(execs, ins)
+				}
+			}
+		}
+		for i, s := range sends {
+			n++
+			good := false
+			gs := guardsOf(s.Block())
+			for _, g := range gs {
+				v, neg := stripNot(g.Cond)
+				pol := g.Pol != neg
+				bo, ok := v.(*ssa.BinOp)
+				if !ok || (bo.Op != token.EQL && bo.Op != token.NEQ) {
+					continue
+				}
+				same := (bo.Op == token.EQL) == pol
+				if !same {
+					continue
+				}
+				var load *ssa.Call
+				for _, side := range []ssa.Value{bo.X, bo.Y} {
+					if call, ok := side.(*ssa.Call); ok && calleeName(&call.Call) == "Load" && len(call.Call.Args) == 1 && fieldOf(call.Call.Args[0]) == fVer {
+						load = call
+					}
+				}
+				if load == nil {
+					continue
+				}
+				after := len(execs) > 0
+				for _, e := range execs {
+					if !(canReach(e, load) && !canReach(load, e)) {
+						after = false
+					}
+				}
+				if after {
+					good = true
+				}
+			}
+			c.check(good, "C08.ver", fmt.Sprintf("%s send on handlerEnd%s is guarded by a post-Exec loop-version check", funcKey(f), nth(i)), s.Pos(),
+				fmt.Sprintf("a loop replaced after a handler deadline would deliver its stale result to the next, unrelated handler call; guards=%v", guardStrings(gs)))
+		}
+	}
+	visit(hl)
+	if n < 1 {
+		c.undecided("C08.ver: no send on handlerEnd found in handlerLoop")
+	}
+}
